@@ -436,6 +436,7 @@ func c16Table(p *Prog, r *Report) {
 	}
 	r.Stat("decode_ops", len(names))
 	xFail, xMatch, xJump := opv("xFail"), opv("xMatch"), opv("xJump")
+	maxOp := opv("maxOp")
 	if xFail != 0 || xMatch < 0 || len(names) < 30 {
 		r.Und("C16.R2", "decoder opcodes", "", "decodeOp constants not found")
 		return
@@ -615,6 +616,9 @@ func c16Table(p *Prog, r *Report) {
 				}
 				if tab[pc] == 0 {
 					add("setop", fmt.Sprintf("xSetOp at pc=%d sets opcode 0", s.pc))
+				}
+				if maxOp >= 0 && tab[pc] > maxOp {
+					add("setop", fmt.Sprintf("xSetOp at pc=%d sets opcode %d beyond maxOp=%d (tables indexed by Op would be overrun)", s.pc, tab[pc], maxOp))
 				}
 				s.setop = true
 				s.pc = pc + 1
@@ -917,7 +921,32 @@ func errTestedBetween(a, b ssa.Instruction, errV ssa.Value) bool {
 // ---- compiler bounds-check inventory (thorough)
 
 // reviewed constructs: function → reason; any unproven check in a function not listed (or new kind) fails.
-var c16BCEAllowed = map[string]string{}
+var c16BCEAllowed = map[string]string{
+	"internal/arch/x86asm.decode1 | src":          "C16.R1 proves every read of src in range (DBM over the dominating length guards)",
+	"internal/arch/x86asm.decode1 | decoder":      "C16.R2 proves every operand and branch target of the bytecode inside the table",
+	"internal/arch/x86asm.decode1 | decoderCover": "the coverage slice is never allocated (no store to it anywhere, confirmed by the C11 inventory): the indexing statement is under `!= nil`",
+	"internal/arch/x86asm.decode1 | inst.Args":    "array of 4; the index is the argument counter, which C16.R2 bounds by 4 (stored before the increment)",
+	"internal/arch/x86asm.decode1 | inst.Prefix":  "array of 14; indices are prefix positions accepted only below len(inst.Prefix) (`pos >= len(inst.Prefix)` returns), recorded positions tested `>= 0`, or vexIndex+1/+2 with vexIndex = 0",
+	"internal/arch/x86asm.decode1 | isCondJmp":    "array [maxOp+1]; the index is inst.Op, set only by xSetOp operands, which C16.R2 bounds by maxOp",
+	"internal/arch/x86asm.Inst.String | ?":        "bytes.Buffer internals inlined into String (not an index of goom data)",
+	"internal/bytecode.DecodeAddress | ?":         "inlined little-endian readers on a slice whose length is the same PCRel field that selects the width (C16.R4 slice rule)",
+	"internal/bytecode.DecodeAddress | bytes":     "bytes has length PCRel ≥ 1 (C16.R4 slice rule; PCRel ∈ {1,2,4} by C16.R5)",
+	"internal/bytecode.DecodeRelativeAddr | block": "block[offset:offset+PCRel] with offset = pos+PCRelOff inside the decoded instruction (C16.R2 'rel' + C16.R5)",
+	"internal/bytecode.EncodeAddress | ?":         "inlined little-endian writers on addr, which is either the PCRel-wide field or a fresh 4-byte slice",
+	"internal/bytecode.EncodeAddress | addr":      "addr is block[offset:offset+PCRel], PCRel ≥ 1",
+	"internal/bytecode.EncodeAddress | ops":       "ops is block[pos:offset] with offset = pos+PCRelOff, PCRelOff ≥ 1 for PC-relative instructions",
+	"internal/bytecode.GetFuncSize | code":        "code is a private 16-byte copy (RawRead(…, defaultInsLen)); indices 0 and :len(funcPrologue)=10",
+	"internal/bytecode.GetInnerFunc | code":       "as GetFuncSize",
+	"internal/bytecode.ParseIns | copyOrigin":     "copyOrigin[pos:endPos] under pos < len and endPos clamped to len",
+	"internal/bytecode.PrintInstf | code":         "log-only path; code[:ins.Len] with Len ≤ len(code) by C16.R1",
+	"internal/bytecode.PrintInstf | copyOrigin":   "log-only path; same PC-relative slice as DecodeRelativeAddr",
+	"internal/bytecode.littleEndian.Int16 | b":    "bounds hint `_ = b[1]`; callers pass PCRel-wide slices (C16.R4)",
+	"internal/bytecode.littleEndian.Int32 | b":    "bounds hint; as Int16",
+	"internal/bytecode.littleEndian.Int64 | b":    "bounds hint; as Int16",
+	"internal/bytecode.littleEndian.PutInt16 | b": "bounds hint; as Int16",
+	"internal/bytecode.littleEndian.PutInt32 | b": "bounds hint; as Int16",
+	"internal/bytecode.littleEndian.PutInt64 | b": "bounds hint; as Int16",
+}
 
 var bceRe = regexp.MustCompile(`^(.*\.go):(\d+):(\d+): Found (IsInBounds|IsSliceInBounds)`)
 
@@ -930,7 +959,8 @@ func c16BCE(c *Ctx, p *Prog, r *Report, rule string, pkgs []string, allowed map[
 	defer os.RemoveAll(gocache)
 	cmd.Env = append(os.Environ(), "GOFLAGS=-mod=mod", "GOPROXY=off", "GOSUMDB=off", "GOWORK=off", "GOTOOLCHAIN=local", "GOCACHE="+gocache)
 	out, _ := cmd.CombinedOutput()
-	perFn := map[string]int{}
+	perKey := map[string]int{}
+	autoProved := map[string]string{}
 	total := 0
 	for _, line := range strings.Split(string(out), "\n") {
 		m := bceRe.FindStringSubmatch(strings.TrimSpace(line))
@@ -939,26 +969,80 @@ func c16BCE(c *Ctx, p *Prog, r *Report, rule string, pkgs []string, allowed map[
 		}
 		total++
 		file := m[1]
-		var ln int
+		var ln, col int
 		fmt.Sscanf(m[2], "%d", &ln)
+		fmt.Sscanf(m[3], "%d", &col)
 		fn := enclosingFunc(p, file, ln)
-		perFn[fn]++
+		base := indexedBase(p, file, ln, col)
+		if why := caseBoundProof(p, file, ln, col); why != "" {
+			autoProved[fn+" | "+base] = why
+		}
+		perKey[fn+" | "+base]++
 	}
 	r.Stat("compiler_unproven_bounds_checks", total)
 	if total == 0 {
 		r.Und(rule, "bounds-check inventory", "", "the compiler reported no bounds checks at all: inventory command failed ("+strings.TrimSpace(firstLine(string(out)))+")")
 		return
 	}
-	var fns []string
-	for f := range perFn {
-		fns = append(fns, f)
+	var keys []string
+	for f := range perKey {
+		keys = append(keys, f)
 	}
-	sort.Strings(fns)
-	for _, f := range fns {
-		why, ok := allowed[f]
-		r.Check(ok, rule, "unproven bounds checks in "+f, "", fmt.Sprintf("%d checks, reviewed: %s", perFn[f], why),
-			fmt.Sprintf("%d bounds checks the compiler cannot prove in %s, a function with no reviewed discharge: an out-of-range index there panics", perFn[f], f))
+	sort.Strings(keys)
+	for _, k := range keys {
+		why, ok := allowed[k]
+		if a, okA := autoProved[k]; okA {
+			why, ok = a, true
+		}
+		r.Check(ok, rule, "unproven bounds checks: "+k, "", fmt.Sprintf("%d checks, discharged by: %s", perKey[k], why),
+			fmt.Sprintf("%d bounds checks the compiler cannot prove at a construct with no recorded discharge (%s): an out-of-range index there panics", perKey[k], k))
 	}
+}
+
+// indexedBase names the indexed/sliced expression at file:line:col (e.g. "src", "inst.Prefix", "decoder").
+func indexedBase(p *Prog, file string, line, col int) string {
+	best := ""
+	bestD := 1 << 30
+	for _, pk := range p.Pkgs {
+		for i, f := range pk.Syntax {
+			if !strings.HasSuffix(pk.CompiledGoFiles[i], strings.TrimPrefix(file, "./")) {
+				continue
+			}
+			ast.Inspect(f, func(n ast.Node) bool {
+				var x ast.Expr
+				var lb token.Pos
+				switch e := n.(type) {
+				case *ast.IndexExpr:
+					x, lb = e.X, e.Lbrack
+				case *ast.SliceExpr:
+					x, lb = e.X, e.Lbrack
+				default:
+					return true
+				}
+				ps := p.Fset.Position(lb)
+				pe := p.Fset.Position(n.End())
+				if ps.Line > line || pe.Line < line {
+					return true
+				}
+				d := ps.Column - col
+				if d < 0 {
+					d = -d
+				}
+				if ps.Line != line {
+					d += 1000
+				}
+				if d < bestD {
+					bestD = d
+					best = types.ExprString(x)
+				}
+				return true
+			})
+		}
+	}
+	if best == "" {
+		return "?"
+	}
+	return best
 }
 
 func firstLine(s string) string {
@@ -1043,4 +1127,82 @@ func inCaseOf(b *ssa.BasicBlock, opName string, fn *ssa.Function) bool {
 		}
 	}
 	return false
+}
+
+// caseBoundProof: the index expression at file:line:col is `T[x]` (or T[conv(x)]) with T a fixed-size array, x the tag of the
+// enclosing switch, inside a case clause all of whose constants are below len(T). Returns the proof text or "".
+func caseBoundProof(p *Prog, file string, line, col int) string {
+	for _, pk := range p.Pkgs {
+		for i, f := range pk.Syntax {
+			if !strings.HasSuffix(pk.CompiledGoFiles[i], strings.TrimPrefix(file, "./")) {
+				continue
+			}
+			var proof string
+			var stack []ast.Node
+			ast.Inspect(f, func(n ast.Node) bool {
+				if n == nil {
+					stack = stack[:len(stack)-1]
+					return true
+				}
+				stack = append(stack, n)
+				ie, ok := n.(*ast.IndexExpr)
+				if !ok {
+					return true
+				}
+				ps := p.Fset.Position(ie.Lbrack)
+				if ps.Line != line {
+					return true
+				}
+				at, ok := pk.TypesInfo.TypeOf(ie.X).Underlying().(*types.Array)
+				if !ok {
+					return true
+				}
+				// innermost enclosing case clause with constant expressions
+				for k := len(stack) - 1; k >= 0; k-- {
+					cc, ok := stack[k].(*ast.CaseClause)
+					if !ok || len(cc.List) == 0 {
+						continue
+					}
+					max := int64(-1)
+					okC := true
+					for _, e := range cc.List {
+						tv := pk.TypesInfo.Types[e]
+						if tv.Value == nil {
+							okC = false
+							break
+						}
+						v, _ := constant.Int64Val(tv.Value)
+						if v > max {
+							max = v
+						}
+					}
+					// the index must be the switch tag (possibly converted)
+					var sw *ast.SwitchStmt
+					for j := k - 1; j >= 0; j-- {
+						if s2, ok := stack[j].(*ast.SwitchStmt); ok {
+							sw = s2
+							break
+						}
+					}
+					idxS := types.ExprString(ie.Index)
+					tagOK := false
+					if sw != nil && sw.Tag != nil {
+						tagS := types.ExprString(sw.Tag)
+						if idxS == tagS || strings.Contains(tagS, "("+idxS+")") || strings.Contains(idxS, "("+strings.TrimSuffix(strings.SplitN(tagS, "(", 2)[len(strings.SplitN(tagS, "(", 2))-1], ")")+")") {
+							tagOK = true
+						}
+					}
+					if okC && tagOK && max >= 0 && max < at.Len() {
+						proof = fmt.Sprintf("table of length %d indexed by the switch tag inside a case whose largest constant is %d", at.Len(), max)
+					}
+					break
+				}
+				return true
+			})
+			if proof != "" {
+				return proof
+			}
+		}
+	}
+	return ""
 }
